@@ -13,15 +13,23 @@
    STRING, where gojq's getpath refuses what gojq's path emits (known finding D10, example below).
 
    Unbounded in the program, the input, the cap and the fuel.  The fragment ([pq], side conditions [pf]):
-     .   .a .["a"] .[3] .[-1] .[1:2] (constant keys and slices)   .[e] (computed key)   .[]   getpath(e)
-     terms with suffix lists as the parser builds them: .a.b[0][]  .[][1:2].c ;  .a?  .[3]?  .[]?  (suffix form of ?)
-     p | q   p , q   empty   error   if c then p else q end   if c then p end   select(c)   e as $x | p   try p
+     .   .a .["a"] .[3] .[-1] .[1:2] (constant keys and slices)   .[e] (computed key)   .[e:f] .[e:] .[:f] (computed bounds)
+     .[]   getpath(e)   terms with suffix lists as the parser builds them, `?` included: .a.b[0][]  .[][1:2].c  .a?.b  .xs?[0]?.z?
+     .a?  .[3]?  .[]?   p | q   p , q   p // q   empty   error   if c then p [elif c then p]* [else q] end   select(c)
+     first(p)   limit(e; p)   ..   recurse   recurse(p)   values nulls numbers strings arrays objects booleans scalars iterables first
+     (any parameterless builtin.jq definition whose body is in the fragment: PBuiltin0)
+       e as $x | p   e as [$a, $b, ...] | p   e as {$a, k: $b, ...} | p   try p
    where c, e are EXPRESSIONS (the regions gojq brackets with opexpbegin/opexpend): all of the above plus
-   null/true/false/number/string literals, $x, + - * / % == != < <= > >= and or, and every Go-implemented
-   function without arguments that the model implements (length, type, keys, ...).
-   Not yet covered (C02b_full): `..`/recurse, //, first, limit (they keep a label or a cell alive while the
-   consumer runs: the relation between the two runs must then relate label and cell ids), `?` inside a longer
-   suffix list, computed slice bounds, elif, destructuring patterns, reduce/foreach, user-defined functions. *)
+   null/true/false/number/string literals, $x, + - * / % == != < <= > >= and or, [e], [], reduce e as $x (e; e),
+   foreach e as $x (e; e; e), `not` (PBuiltin0), every Go-implemented function without arguments that the model implements
+   and builtin.jq does not define (length, type, keys, ...) and with one argument (has(e), startswith(e), contains(e), ...).
+   select, first, limit, recurse go through their builtin.jq definitions ([builtins_ok] pins the text: label/break,
+   foreach with its counter cell, the local recursive def r).  `//`, label and foreach keep a frame (cell) alive while
+   their consumer runs and the two runs allocate different ids: the simulation is indexed by the stack of live
+   frames (PathSound.v: world, SR, xrel).
+   Not yet covered (C02b_full): nested patterns and computed pattern keys, ?//, reduce/foreach as PATH expressions,
+   object construction and natives with two or more arguments in expressions, user-defined functions, jq-defined
+   builtins WITH parameters other than select/first/limit/recurse (e.g. `map`, `recurse(f; cond)`, `paths`). *)
 From Coq Require Import String.
 From Coq Require Import List ZArith NArith.
 From Verif Require Import common.Sexp sem.JV sem.Syntax sem.Natives sem.Sem sem.PathSound sem.PathSoundProofs gen.GenBuiltins.
@@ -36,6 +44,12 @@ Definition C02b_full (is_path_expression : list funcdef -> query -> Prop) : Prop
 Theorem C02b_path_sound_fragment : C02b_full (fun bs q => exists p, pf bs p /\ q = emb p).
 Proof. intros bs q Hb [p [Hp ->]]. exact (path_sound_law bs Hb p Hp). Qed.
 Print Assumptions C02b_path_sound_fragment.
+
+(* the same statement with the model of gojq's getpath: `v | getpath(q)` IS the corresponding output of `v | p`, unless
+   the path navigates from a string (known finding D10) *)
+Theorem C02b_path_sound_getpath : forall bs, builtins_ok bs -> forall p, pf bs p -> path_law_getpath bs (emb p).
+Proof. exact path_sound_getpath. Qed.
+Print Assumptions C02b_path_sound_getpath.
 
 Theorem C02b_getpath : forall path v w, nav_path v path = NOk w -> str_nav v path = false ->
   fn_getpath v (VArr path) = NOk w.
@@ -62,6 +76,21 @@ Theorem C02b_iterate_from_computed : forall bs n rho x pp k s, intact (repsens s
   eval_q bs (3 + n) rho (emb PIter) x (Some pp) k s = raise_err EIterator (msg_iterator (fst x)) s.
 Proof. exact iterate_from_computed. Qed.
 Print Assumptions C02b_iterate_from_computed.
+
+(* the same for a COMPUTED key `.[e]`: the key expression runs (outside path tracking), then the run ends with the error of
+   the index function or the invalid-path error; the consumer k does not occur in the result.  (Uses functional
+   extensionality, already among the assumptions through Flocq.) *)
+Theorem C02b_idxdyn_from_computed : forall bs e n rho x pp k s,
+  query_index_key (emb e) = None -> intact (repsens s) x pp = No ->
+  eval_q bs (4 + n) rho (emb (PIdxDyn e)) x (Some pp) k s =
+  eval_q bs (S n) rho (emb e) x None
+    (fun ix _ s' => match fn_index2 (fst x) (fst ix) with
+                    | NOk _ => raise_err EInvalidPath (msg_invalid_path (fst x)) s'
+                    | NErr c val => raise_err c val s'
+                    | NSkip why => (inr (XSkip why), s')
+                    end) s.
+Proof. exact idxdyn_from_computed. Qed.
+Print Assumptions C02b_idxdyn_from_computed.
 
 (* the hypotheses on the builtin table hold for builtin.jq of the current tree (select is pinned to its text) *)
 Example C02b_builtins_ok : builtins_ok builtin_defs.
@@ -127,6 +156,125 @@ Example C02b_ex_suffixes :
          (VArr [obj1 "a" (obj1 "b" (VArr [VArr [VInt 7; VInt 8]])); VInt 1]) 4.
 Proof. vm_compute. repeat split. Qed.
 
+(* .[] | (.a // .b), ((.c | .[]) // .a)   on [{"a":null,"b":1}, {"a":2,"c":[false,3]}, {"a":false,"b":false}]:
+   the alternative operator with 0, 1 and several truthy outputs on the left *)
+Example C02b_ex_alt :
+  law_on builtin_defs 60 50
+         (emb (PPipe PIter (PComma (PAlt (pfld "a") (pfld "b")) (PAlt (PPipe (pfld "c") POptIter) (pfld "a")))))
+         (VArr [obj2 "a" VNull "b" (VInt 1); obj2 "a" (VInt 2) "c" (VArr [VBool false; VInt 3]); obj2 "a" (VBool false) "b" (VBool false)]) 6.
+Proof. vm_compute. repeat split. Qed.
+
+(* first(.[] | .[]), first(empty), (.[] | first(.[] , error)), first(.[0] | first(.[]))   on [[1,2],[3]] *)
+Example C02b_ex_first :
+  law_on builtin_defs 60 50
+         (emb (PComma (PFirst (PPipe PIter PIter)) (PComma (PFirst PEmpty)
+                 (PComma (PPipe PIter (PFirst (PComma PIter PError))) (PFirst (PPipe (pidx 0) (PFirst PIter)))))))
+         (VArr [VArr [VInt 1; VInt 2]; VArr [VInt 3]]) 4.
+Proof. vm_compute. repeat split. Qed.
+
+(* .., (recurse | .a?), recurse(.[1:]? | select(length > 0)), first(.. | select(type == "number"))
+   on [{"a":[1]}, 2]: the recursive builtin.jq definitions, unbounded depth *)
+Example C02b_ex_recurse :
+  law_on builtin_defs 80 80
+         (emb (PComma PDotDot (PComma (PPipe PRecurse0 (POptIdx (fld "a")))
+                 (PComma (PRecurse1 (PPipe (PTry (PIdx (Index [] None (Some (num_q 1)) None true))) (PSelect (PBinop OpGt (PNative0 (codes "length")) (lnum 0)))))
+                         (PFirst (PPipe PDotDot (PSelect (PBinop OpEq (PNative0 (codes "type")) (lstr "number")))))))))
+         (VArr [obj1 "a" (VArr [VInt 1]); VInt 2]) 9.
+Proof. vm_compute. repeat split. Qed.
+
+(* limit(2; .xs[]), limit(0; .xs[]), limit(.n; .xs[] , .n), first(limit(3; ..)), limit(.n - 5; .)
+   on {"n":2,"xs":[5,6,7]}: 2 + 0 + 2 + 1 outputs, then the error of the negative count, in both runs *)
+Example C02b_ex_limit :
+  law_on builtin_defs 80 80
+         (emb (PComma (PLimit (lnum 2) (PChain (Some (fld "xs")) [SIter]))
+              (PComma (PLimit (lnum 0) (PChain (Some (fld "xs")) [SIter]))
+              (PComma (PLimit (pfld "n") (PComma (PChain (Some (fld "xs")) [SIter]) (pfld "n")))
+              (PComma (PFirst (PLimit (lnum 3) PDotDot))
+                      (PLimit (PBinop OpSub (pfld "n") (lnum 5)) PId))))))
+         (obj2 "n" (VInt 2) "xs" (VArr [VInt 5; VInt 6; VInt 7])) 5.
+Proof. vm_compute. repeat split. Qed.
+
+(* .[] | (if .k == "x" then .a elif .k == "y" then .b elif .k then .k end),
+         (.lo as $l | .hi as $h | .xs | ((.[$l:$h] | .[]?), .[$l:], (try .[:$h]))), .xs?[0]?.z?
+   on [{"k":"x","a":1}, {"k":"y","b":2,"xs":[[5],6,7,8],"lo":1,"hi":3}, {"k":null}]:
+   elif chains, computed slice bounds, `?` inside suffix lists *)
+Example C02b_ex_elif_slices_opt :
+  law_on builtin_defs 80 80
+         (emb (PPipe PIter
+                (PComma (PElif (PBinop OpEq (pfld "k") (lstr "x")) (pfld "a")
+                           (PElif (PBinop OpEq (pfld "k") (lstr "y")) (pfld "b") (PIfNoElse (pfld "k") (pfld "k"))))
+                (PComma (PBind (pfld "lo") (codes "$l") (PBind (pfld "hi") (codes "$h") (PPipe (pfld "xs")
+                           (PComma (PPipe (PSliceDyn true true (PVar (codes "$l")) (PVar (codes "$h"))) POptIter)
+                           (PComma (PSliceDyn true false (PVar (codes "$l")) PId)
+                                   (PTry (PSliceDyn false true PId (PVar (codes "$h")))))))))
+                        (PChain (Some (fld "xs")) [SOpt; SIdx (idx 0); SOpt; SIdx (fld "z"); SOpt])))))
+         (VArr [obj2 "a" (VInt 1) "k" (vs "x");
+                VObj [(codes "b", VInt 2); (codes "hi", VInt 3); (codes "k", vs "y"); (codes "lo", VInt 1);
+                      (codes "xs", VArr [VArr [VInt 5]; VInt 6; VInt 7; VInt 8])];
+                obj1 "k" VNull]) 13.
+Proof. vm_compute. repeat split. Qed.
+
+(* .[] | (.ks as [$a, $b] | .[$a], .[$b], (.[$b] | .[$a]?))   on [{"ks":["x","y"],"x":1,"y":{"x":2}}, {"ks":["x"],"x":3}, {"ks":7}]:
+   array destructuring (a missing element binds null: .[null] is an error caught by nothing -> same error in both runs) *)
+Example C02b_ex_destructuring :
+  law_on builtin_defs 80 80
+         (emb (PPipe PIter (PBindArr (pfld "ks") [codes "$a"; codes "$b"]
+                (PComma (PIdxDyn (PVar (codes "$a"))) (PComma (PIdxDyn (PVar (codes "$b")))
+                        (PPipe (PIdxDyn (PVar (codes "$b"))) (PTry (PIdxDyn (PVar (codes "$a"))))))))))
+         (VArr [VObj [(codes "ks", VArr [vs "x"; vs "y"]); (codes "x", VInt 1); (codes "y", obj1 "x" (VInt 2))];
+                obj2 "ks" (VArr [vs "x"]) "x" (VInt 3); obj1 "ks" (VInt 7)]) 4.
+Proof. vm_compute. repeat split. Qed.
+
+(* .[] | (. as {$k, idx: $i} | .[$k], (.[$k] | .[$i]?))   on [{"k":"a","idx":1,"a":[5,6]}, {"k":"idx","idx":0}, {"k":null}]:
+   object destructuring ({$k} and {idx: $i}); the last element ends both runs with the error of .[null] *)
+Example C02b_ex_destructuring_obj :
+  law_on builtin_defs 80 80
+         (emb (PPipe PIter (PBindObj PId [OVar (codes "$k"); OKey (codes "idx") (codes "$i")]
+                (PComma (PIdxDyn (PVar (codes "$k"))) (PPipe (PIdxDyn (PVar (codes "$k"))) (PTry (PIdxDyn (PVar (codes "$i")))))))))
+         (VArr [VObj [(codes "a", VArr [VInt 5; VInt 6]); (codes "idx", VInt 1); (codes "k", vs "a")];
+                obj2 "idx" (VInt 0) "k" (vs "idx"); obj1 "k" VNull]) 3.
+Proof. vm_compute. repeat split. Qed.
+
+(* getpath(["a","b"]), (.xs[] | select([.[]?] | length > 1)), .xs[reduce .xs[] as $x (0; . + 1) - 2],
+   (.xs | .[[foreach .[] as $x (0; . + 1; .)] | length - 3])      on {"a":{"b":7},"xs":[[1,2],[3],[4,5,6]]}:
+   constructed arrays, reduce and foreach inside the expression regions *)
+Example C02b_ex_expressions :
+  law_on builtin_defs 80 80
+         (emb (PComma (PGetpath (PArray (PComma (lstr "a") (lstr "b"))))
+              (PComma (PPipe (PChain (Some (fld "xs")) [SIter])
+                             (PSelect (PBinop OpGt (PPipe (PArray POptIter) (PNative0 (codes "length"))) (lnum 1))))
+              (PComma (PPipe (pfld "xs")
+                        (PBind (PBinop OpSub (PReduce PIter (codes "$x") (lnum 0) (PBinop OpAdd PId (lnum 1))) (lnum 2)) (codes "$i")
+                               (PIdxDyn (PVar (codes "$i")))))
+                      (PPipe (pfld "xs")
+                        (PBind (PBinop OpSub (PPipe (PArray (PForeach PIter (codes "$x") (lnum 0) (PBinop OpAdd PId (lnum 1)) PId))
+                                                    (PNative0 (codes "length"))) (lnum 3)) (codes "$j")
+                               (PIdxDyn (PVar (codes "$j")))))))))
+         (obj2 "a" (obj1 "b" (VInt 7)) "xs" (VArr [VArr [VInt 1; VInt 2]; VArr [VInt 3]; VArr [VInt 4; VInt 5; VInt 6]])) 5.
+Proof. vm_compute. repeat split. Qed.
+
+(* (.. | numbers), (.[] | values | scalars), (.[] | select(has("a") | not)), (.[] | arrays | first), (.[] | iterables | objects | .a)
+   on [{"a":1}, null, [2,3], "s", {"b":null}]: parameterless builtin.jq definitions (their bodies are terms of the fragment,
+   compared with builtin.jq of the current tree by the side condition) and a native with an argument *)
+Example C02b_ex_builtins0 :
+  law_on builtin_defs 80 80
+         (emb (PComma (PPipe PDotDot b_numbers)
+              (PComma (PPipe PIter (PPipe b_values b_scalars))
+              (PComma (PPipe PIter (PSelect (PPipe (PTry (PNative1 (codes "has") (lstr "a"))) b_not)))
+              (PComma (PPipe PIter (PPipe b_arrays b_first0))
+                      (PPipe PIter (PPipe b_iterables (PPipe b_objects (pfld "a")))))))))
+         (VArr [obj1 "a" (VInt 1); VNull; VArr [VInt 2; VInt 3]; vs "s"; obj1 "b" VNull]) 9.
+Proof. vm_compute. repeat split. Qed.
+
+Example C02b_ex_builtins0_in_fragment :
+  pf builtin_defs (PComma (PPipe PDotDot b_numbers)
+              (PComma (PPipe PIter (PPipe b_values b_scalars))
+              (PComma (PPipe PIter (PSelect (PPipe (PTry (PNative1 (codes "has") (lstr "a"))) b_not)))
+              (PComma (PPipe PIter (PPipe b_arrays b_first0))
+                      (PPipe PIter (PPipe b_iterables (PPipe b_objects (pfld "a")))))))) /\
+  pf builtin_defs b_strings /\ pf builtin_defs b_booleans /\ pf builtin_defs b_nulls.
+Proof. unfold pf. cbn [ok]. repeat split; repeat constructor; try discriminate; reflexivity. Qed.
+
 (* every example program satisfies the side conditions of the theorem *)
 Example C02b_ex_in_fragment :
   pf builtin_defs (PPipe PIter (PPipe (PSelect (PBinop OpGt (pfld "a") (lnum 1))) (pfld "b"))) /\
@@ -137,6 +285,47 @@ Example C02b_ex_in_fragment :
                                                           (PPipe (pfld "a") (PNative0 (codes "length"))))))
                              PError)) /\
   pf builtin_defs (PPipe PIter (PComma (POptIdx (fld "a")) (PComma POptIter (PChain (Some (fld "a")) [SIdx (fld "b"); SIdx (idx 0); SIter])))).
+Proof. unfold pf. cbn [ok]. repeat split; repeat constructor; try discriminate; reflexivity. Qed.
+
+(* ... and so do the programs of the examples with frames, recursion, limit, elif, computed slices, `?` in suffix lists, destructuring *)
+Example C02b_ex_in_fragment2 :
+  pf builtin_defs (PPipe PIter (PComma (PAlt (pfld "a") (pfld "b")) (PAlt (PPipe (pfld "c") POptIter) (pfld "a")))) /\
+  pf builtin_defs (PComma (PFirst (PPipe PIter PIter)) (PComma (PFirst PEmpty)
+                 (PComma (PPipe PIter (PFirst (PComma PIter PError))) (PFirst (PPipe (pidx 0) (PFirst PIter)))))) /\
+  pf builtin_defs (PComma PDotDot (PComma (PPipe PRecurse0 (POptIdx (fld "a")))
+                 (PComma (PRecurse1 (PPipe (PTry (PIdx (Index [] None (Some (num_q 1)) None true))) (PSelect (PBinop OpGt (PNative0 (codes "length")) (lnum 0)))))
+                         (PFirst (PPipe PDotDot (PSelect (PBinop OpEq (PNative0 (codes "type")) (lstr "number")))))))) /\
+  pf builtin_defs (PComma (PLimit (lnum 2) (PChain (Some (fld "xs")) [SIter]))
+              (PComma (PLimit (lnum 0) (PChain (Some (fld "xs")) [SIter]))
+              (PComma (PLimit (pfld "n") (PComma (PChain (Some (fld "xs")) [SIter]) (pfld "n")))
+              (PComma (PFirst (PLimit (lnum 3) PDotDot))
+                      (PLimit (PBinop OpSub (pfld "n") (lnum 5)) PId))))) /\
+  pf builtin_defs (PPipe PIter
+                (PComma (PElif (PBinop OpEq (pfld "k") (lstr "x")) (pfld "a")
+                           (PElif (PBinop OpEq (pfld "k") (lstr "y")) (pfld "b") (PIfNoElse (pfld "k") (pfld "k"))))
+                (PComma (PBind (pfld "lo") (codes "$l") (PBind (pfld "hi") (codes "$h") (PPipe (pfld "xs")
+                           (PComma (PPipe (PSliceDyn true true (PVar (codes "$l")) (PVar (codes "$h"))) POptIter)
+                           (PComma (PSliceDyn true false (PVar (codes "$l")) PId)
+                                   (PTry (PSliceDyn false true PId (PVar (codes "$h")))))))))
+                        (PChain (Some (fld "xs")) [SOpt; SIdx (idx 0); SOpt; SIdx (fld "z"); SOpt])))) /\
+  pf builtin_defs (PPipe PIter (PBindArr (pfld "ks") [codes "$a"; codes "$b"]
+                (PComma (PIdxDyn (PVar (codes "$a"))) (PComma (PIdxDyn (PVar (codes "$b")))
+                        (PPipe (PIdxDyn (PVar (codes "$b"))) (PTry (PIdxDyn (PVar (codes "$a"))))))))).
+Proof. unfold pf. cbn [ok]. repeat split; repeat constructor; try discriminate; reflexivity. Qed.
+
+Example C02b_ex_in_fragment3 :
+  pf builtin_defs (PComma (PGetpath (PArray (PComma (lstr "a") (lstr "b"))))
+              (PComma (PPipe (PChain (Some (fld "xs")) [SIter])
+                             (PSelect (PBinop OpGt (PPipe (PArray POptIter) (PNative0 (codes "length"))) (lnum 1))))
+              (PComma (PPipe (pfld "xs")
+                        (PBind (PBinop OpSub (PReduce PIter (codes "$x") (lnum 0) (PBinop OpAdd PId (lnum 1))) (lnum 2)) (codes "$i")
+                               (PIdxDyn (PVar (codes "$i")))))
+                      (PPipe (pfld "xs")
+                        (PBind (PBinop OpSub (PPipe (PArray (PForeach PIter (codes "$x") (lnum 0) (PBinop OpAdd PId (lnum 1)) PId))
+                                                    (PNative0 (codes "length"))) (lnum 3)) (codes "$j")
+                               (PIdxDyn (PVar (codes "$j")))))))) /\
+  pf builtin_defs (PPipe PIter (PBindObj PId [OVar (codes "$k"); OKey (codes "idx") (codes "$i")]
+                (PComma (PIdxDyn (PVar (codes "$k"))) (PPipe (PIdxDyn (PVar (codes "$k"))) (PTry (PIdxDyn (PVar (codes "$i")))))))).
 Proof. unfold pf. cbn [ok]. repeat split; repeat constructor; try discriminate; reflexivity. Qed.
 
 (* D10 (known finding): "abcd" | path(.[1:3]) emits [{"start":1,"end":3}] and "abcd" | .[1:3] is "bc" — the law holds
